@@ -42,12 +42,18 @@ RULE = (
     "mirror images across each edge (explicit line reflection), compared as sets of vertex sets at tol. "
     "for_indexes: same triangles as those selected (as a set, equal count). containing_indices(shape): every "
     "triangle that contains the shape's reference point with barycentric margin >= 0.01 is reported (point placed "
-    "with weights >= 0.05 in a chosen triangle: generic, near an edge, near a vertex, at the centroid), and a "
+    "with weights >= 0.05 in a chosen triangle: generic, near an edge, near a vertex, at the centroid; or with "
+    "weights >= 0.015: next to a corner (one vertex weight 0.85-0.97) or next to an edge midpoint), and a "
     "reference point bitwise equal to a vertex of the chosen triangle is reported for that triangle; shapes are "
     "zero-size, tiny, or comparable to the triangle (extent 0.3x-3x the side, boxes and polygons with aspect 1:1 "
     "and 2:1-4:1 both ways), half of the comparable boxes / triangles / polygons are aimed so that the shape "
     "covers the centroid of a neighbouring triangle of the set (in the natural and in the transposed reading of "
-    "the polygon vertices) but usually not the containing triangle's. Non-trivial = the initial set has >= 3 "
+    "the polygon vertices) but usually not the containing triangle's; half of all sized shapes take their "
+    "size/side ratio (circle radius, box half-extent with aspect 1, 1/2, 2, 1/4, regular 3-6-gon circumradius) "
+    "from the grid {1/(2 sqrt 3), 1/2, 1/sqrt 3, 2/3, 1} x (1 + {0, +-0.002, +-0.01, +-0.03, +-0.08}); "
+    "(shape_grid) enumerates shape type x that grid x placements (3 corners x weight {0.85,0.9,0.93,0.95,0.97} x "
+    "on/off the median, 3 edge midpoints x 2 depths, centroid) on a hexagon of six triangles and on tiny / huge / "
+    "vertex-array sets; failures are keyed by (representation, shape, placement, ratio band). Non-trivial = the initial set has >= 3 "
     "triangles and contains both apex-up and apex-down triangles; distinct = SHA-1 of the canonical case."
 )
 ASSUMPTIONS = [
@@ -67,8 +73,10 @@ ASSUMPTIONS = [
     "(zoom depth <= 40 from side 1 with |coordinate| <= ~2); in a zoom step the point may fall within 1% of a "
     "child edge, then nothing is demanded of containing_indices for that step (counted as a tie)",
     "for a circle the class 'covers a neighbour's centroid but not the containing triangle's' is empty on a "
-    "lattice (the containing triangle's centroid is the nearest one), so it exists for boxes, triangles and "
-    "polygons only",
+    "lattice (the containing triangle's centroid is the nearest one); circle shortcuts that depend on the radius "
+    "alone are covered by the ratio grid x corner placements instead",
+    "reference points of the corner / edge-midpoint classes keep a barycentric margin of 0.015 (the demand "
+    "needs 0.01; rounding noise is below 2e-3 in every generated regime)",
     "jax variants are not importable in this environment and are not covered",
     "numba is absent (irrelevant here: the triangle code is plain numpy)",
 ]
@@ -77,6 +85,11 @@ BARY_IN = 1e-9      # strict containment margin for child centroids (true value 
 BARY_CLOSED = 1e-9  # closed containment slack for child vertices
 AREA_RTOL = 1e-9
 REL_CAP = 0.02
+MIN_W = 0.015       # smallest barycentric weight of a placed reference point (the demand needs >= 0.01)
+# geometric thresholds of an equilateral triangle in units of its side: inradius, half side, circumradius,
+# 2/3 (centroid to far edge of a neighbour), side
+THRESHOLDS = [0.5 / 3 ** 0.5, 0.5, 1 / 3 ** 0.5, 2.0 / 3.0, 1.0]
+DELTAS = [0.0, 0.002, -0.002, 0.01, -0.01, 0.03, -0.03, 0.08, -0.08]
 MAX_UP = 160        # an up_sample is executed only on sets of at most this many triangles
 MAX_NB = 300
 
@@ -301,9 +314,22 @@ def _weights(spec):
         w[place["e"] % 3] = 0.9
     elif mode == "centroid":
         w = np.full(3, 1.0 / 3.0)
+    elif mode == "corner":         # vertex e carries 0.85-0.97, the other two at least MIN_W each
+        e = place["e"] % 3
+        we = min(max(place["w"], 0.85), 0.97)
+        rem = 1.0 - we
+        o1 = MIN_W + (rem - 2 * MIN_W) * place["t"]
+        w = np.empty(3)
+        w[e], w[(e + 1) % 3], w[(e + 2) % 3] = we, o1, rem - o1
+    elif mode == "edge-mid":       # 1.5-8% inside the edge opposite vertex e, within +-10% of its midpoint
+        e = place["e"] % 3
+        we = MIN_W + 0.065 * place["a"]
+        t = 0.4 + 0.2 * place["t"]
+        w = np.empty(3)
+        w[e], w[(e + 1) % 3], w[(e + 2) % 3] = we, (1 - we) * t, (1 - we) * (1 - t)
     else:
         raise AssertionError("harness: unknown placement %r" % mode)
-    if abs(w.sum() - 1.0) > 1e-12 or w.min() < 0.05 - 1e-12:
+    if abs(w.sum() - 1.0) > 1e-12 or w.min() < MIN_W - 1e-12:
         raise AssertionError("harness: bad barycentric weights %r" % (w,))
     return w, mode
 
@@ -415,6 +441,27 @@ def _extent_class(desc, S):
     return size, aspect
 
 
+def _ratio_band(desc, p, S):
+    """Size of the shape in units of the side (circle radius, box half-width along column 0, polygon
+    circumradius about its vertex mean) and the band between geometric thresholds it falls in."""
+    if desc[0] == "point":
+        return None
+    if desc[0] == "circle":
+        ratio = desc[1] / S
+    elif desc[0] == "square":
+        ratio = desc[1] / S
+    else:
+        v = np.array(desc[1])
+        ratio = float(np.hypot(v[:, 0] - p[0], v[:, 1] - p[1]).max()) / S
+    names = ["0.2887", "0.5", "0.5774", "0.6667", "1.0"]
+    lo = "0"
+    for t, nm in zip(THRESHOLDS, names):
+        if ratio < t * (1 - 1e-12):
+            return "%s-%s" % (lo, nm)
+        lo = nm
+    return ">=1.0"
+
+
 def check_contain(ctx, rep, spec, S):
     T = rep.T
     n = len(T)
@@ -448,7 +495,13 @@ def check_contain(ctx, rep, spec, S):
         band = int(np.count_nonzero((mb > -1e-9) & (mb < 0.01)))
         if band:
             ctx.tie(band)
-        ctx.label("place:%s" % _weights(spec)[1])
+        place = _weights(spec)[1]
+        ctx.label("place:%s" % place)
+        cls += "/" + place
+        band = _ratio_band(desc, p, S)
+        if band:
+            cls += "/" + band
+            ctx.label("%s:%s/%s" % (spec["kind"], place, band))
         ec = _extent_class(desc, S)
         if ec:
             ctx.label("%s:size-%s" % (spec["kind"], ec[0]))
@@ -459,7 +512,6 @@ def check_contain(ctx, rep, spec, S):
             own, other = bool(cov[same].any()), bool(cov[~same].any())
             cover = "other-not-own" if other and not own else "own-and-other" if other else "own-only" if own else "none"
             ctx.label("%s:covers-%s" % (spec["kind"], cover))
-            cls += "/covers-" + cover
     ctx.label("shape:%s/%s" % (spec["kind"], spec["at"]))
     miss = sorted(want - got)
     ctx.check(not miss, "containing/%s/%s" % (rep.name, cls),
@@ -646,7 +698,14 @@ def magnitudes(draw):
 
 @st.composite
 def placements(draw):
-    mode = draw(st.sampled_from(["generic", "generic", "near-edge", "near-edge", "near-vertex", "centroid"]))
+    mode = draw(st.sampled_from(["generic", "near-edge", "near-vertex", "centroid", "corner", "corner", "corner",
+                                 "edge-mid"]))
+    if mode == "corner":
+        return {"mode": mode, "e": draw(st.integers(0, 2)),
+                "w": draw(st.one_of(st.sampled_from([0.97, 0.95, 0.93, 0.9, 0.85]), st.floats(0.85, 0.97))),
+                "t": draw(st.one_of(st.just(0.5), st.floats(0.0, 1.0)))}
+    if mode == "edge-mid":
+        return {"mode": mode, "e": draw(st.integers(0, 2)), "a": draw(st.floats(0.0, 1.0)), "t": draw(st.floats(0.0, 1.0))}
     if mode == "generic":
         return {"mode": mode, "u": [draw(st.floats(0.0, 1.0)) for _ in range(3)]}
     if mode == "near-edge":
@@ -664,6 +723,21 @@ def shape_specs(draw):
         at = draw(st.sampled_from(["interior", "interior", "interior", "vertex"]))
     spec = {"kind": kind, "at": at, "k": draw(st.integers(0, 10 ** 6)), "corner": draw(st.integers(0, 2)),
             "place": draw(placements())}
+    if kind != "point" and at == "interior" and draw(st.booleans()):
+        # size/side ratio on a fine grid around the geometric thresholds
+        ratio = draw(st.sampled_from(THRESHOLDS)) * (1.0 + draw(st.sampled_from(DELTAS)))
+        spec["grid"] = True
+        if kind == "circle":
+            spec["r"] = ratio
+        elif kind == "square":
+            spec["hx"], spec["hy"] = ratio, ratio * draw(st.sampled_from([1.0, 1.0, 0.5, 2.0, 0.25]))
+            if draw(st.booleans()):
+                spec["hx"], spec["hy"] = spec["hy"], spec["hx"]
+        else:
+            n = 3 if kind == "triangle" else draw(st.integers(4, 6))
+            rot = draw(st.sampled_from([0.0, 0.25, 0.5, 0.75]))
+            spec["pts"] = [[ratio, rot]] * n
+        return spec
     size = draw(st.sampled_from(["comparable", "comparable", "comparable", "tiny", "zero"]))
     # long half-extent in units of the side: full extent 0.3x .. 3x for the comparable class
     L = {"comparable": st.floats(0.15, 1.5), "tiny": st.floats(0.005, 0.05), "zero": st.just(0.0)}[size]
@@ -902,7 +976,72 @@ def cases_enum_small(tier):
                            "side": side, "xo": xo, "yo": yo, "flipped": flipped, "ops": ops, "shapes": ENUM_SHAPES}
 
 
+# ---------------------------------------------------------------------------------------------
+# systematic shape grid: (shape type) x (size/side ratio around each geometric threshold) x (placement)
+# ---------------------------------------------------------------------------------------------
+def _grid_placements():
+    out = []
+    for e in range(3):
+        for w in (0.85, 0.9, 0.93, 0.95, 0.97):
+            for t in (0.5, 0.15):
+                out.append({"mode": "corner", "e": e, "w": w, "t": t})
+        for a in (0.0, 0.5):
+            out.append({"mode": "edge-mid", "e": e, "a": a, "t": 0.5})
+    out.append({"mode": "centroid"})
+    return out
+
+
+def _grid_shapes(kind, ratio, k):
+    shapes = []
+    for place in _grid_placements():
+        base = {"kind": kind, "at": "interior", "k": k, "corner": 0, "place": place, "grid": True}
+        if kind == "circle":
+            shapes.append(dict(base, r=ratio))
+        elif kind == "square":
+            for f in (1.0, 0.5, 2.0):
+                shapes.append(dict(base, hx=ratio, hy=ratio * f))
+                if f != 1.0:
+                    shapes.append(dict(base, hx=ratio * f, hy=ratio))
+        elif kind == "triangle":
+            for rot in (0.0, 0.5):
+                shapes.append(dict(base, pts=[[ratio, rot]] * 3))
+        else:
+            shapes.append(dict(base, pts=[[ratio, 0.0]] * 4))
+            shapes.append(dict(base, pts=[[ratio, 0.25]] * 5))
+    return shapes
+
+
+def cases_shape_grid(tier):
+    hexagon = [[i, j] for j in (0, 1) for i in (0, 1, 2)]
+    bases = [("coords", hexagon, 1.0, 0.25, -0.4, False), ("coords", [[0, 0]], 2.0 ** -33, 0.0, 2.0 ** -34, True)]
+    if tier != "quick":
+        bases += [("coords", hexagon, 2.0 ** -33, 2.0 ** -33, 0.0, True), ("coords", [[1, 0], [0, 0]], 1e6, 0.0, 3e6, False),
+                  ("array-lattice", None, 1.0, 0.3, -0.2, False), ("array-lattice", None, 1e-10, 2e-10, 0.0, False)]
+    for source, coords, side, xo, yo, flipped in bases:
+        n = len(coords) if coords else 4
+        for kind in ("circle", "square", "triangle", "polygon"):
+            for ti, thr in enumerate(THRESHOLDS):
+                for di, dl in enumerate(DELTAS):
+                    yield {"source": source, "coords": coords, "side": side, "xo": xo, "yo": yo, "flipped": flipped,
+                           "shapes": _grid_shapes(kind, thr * (1.0 + dl), (ti + di) % n)}
+
+
+def body_shape_grid(case, ctx):
+    CT, AT, _ = _classes()
+    s = float(case["side"])
+    if case["source"] == "coords":
+        coords = np.array(case["coords"], dtype=int).reshape(-1, 2)
+        obj = CT(coordinates=coords, side_length=s, x_offset=case["xo"], y_offset=case["yo"], flipped=case["flipped"])
+        reps = _coord_reps(ctx, obj)
+    else:
+        obj = AT.for_limits_and_scale(case["yo"], case["yo"] + 1.2 * s, case["xo"], case["xo"] + 1.2 * s, s)
+        reps = [Rep("array", obj, _tri(ctx, obj, "for_limits_and_scale/array"))]
+    ctx.label("source:%s" % case["source"])
+    battery(ctx, reps, s, [], case["shapes"])
+
+
 SUBCHECKS = [
+    SubCheck("shape_grid", body_shape_grid, cases=cases_shape_grid, shards={"quick": 8, "thorough": 16}),
     SubCheck("enum_small", body_coords_ops, cases=cases_enum_small, shards={"quick": 6, "thorough": 16}),
     SubCheck("coords_ops", body_coords_ops, strategy=coords_ops_cases(), examples={"quick": 640, "thorough": 16000},
              shards={"quick": 8, "thorough": 32}),
